@@ -5,7 +5,7 @@ from __future__ import annotations
 import typing as t
 
 from sa import agree, layout
-from sa.load import AnalysisError, Cls, Repo
+from sa.load import AnalysisError, Cls, Func, Repo
 from sa.report import Check, Site
 from sa.sym import Lin, Seg
 from sa.symeval import Unsupported
@@ -45,7 +45,75 @@ def plain(repo: Repo, chk: Check, rule: str, qual: str, reader: str = "unpack") 
     src = fr.params[1] if fr.is_classmethod and len(fr.params) > 1 else fr.params[0]
     v = agree.agree_paths(repo, w, r, cls, src, sizes_of(repo))
     chk.table(f"{cls.name}", {"writer": v.tables["writer"][:1], "pairs": v.pairs})
-    return _report(chk, rule, cls, v, "pack() table = unpack() table")
+    ok = _report(chk, rule, cls, v, "pack() table = unpack() table")
+    return rejections(repo, chk, rule, cls, fr, src) and ok
+
+
+def _atoms_of(x: t.Any) -> t.Set[t.Any]:
+    out: t.Set[t.Any] = set()
+    if isinstance(x, Lin):
+        for a in x.terms:
+            out.add(a)
+            stack = [a]
+            while stack:
+                y = stack.pop()
+                if isinstance(y, tuple):
+                    for z in y:
+                        if isinstance(z, Lin):
+                            out |= _atoms_of(z)
+                        elif isinstance(z, tuple):
+                            out.add(z)
+                            stack.append(z)
+    return out
+
+
+def rejections(repo: Repo, chk: Check, rule: str, cls: Cls, fr: Func, src: str) -> bool:
+    """decode(encode(x)) = x needs the decoder to accept whatever the encoder emits.  Every raising path of the decoder
+    must therefore be decided, at its last branch, by something an encoded value cannot show: a literal (magic) that
+    differs from the one the format prescribes, a code outside the code table, or a size test against the input
+    length.  A rejection decided by anything else - a decoded field value - refuses values pack() writes."""
+    ok = True
+    n = 0
+    for st, o in layout.Interp(repo, fr).run(layout.self_state(repo, fr)):
+        if o.kind != "raise":
+            continue
+        n += 1
+        if not st.conds:
+            chk.ob(rule, Site.of(fr, o.node), False, f"{cls.name}.{fr.name} raises unconditionally")
+            ok = False
+            continue
+        c, pol = st.conds[-1]
+
+        def kind_of(b: t.Any) -> t.Optional[str]:
+            info = dict(getattr(b, "info", {}) or {})
+            inner = info.get("neg") if not isinstance(info.get("neg"), bool) else None
+            if inner is not None and hasattr(inner, "info"):
+                return kind_of(inner)
+            if "values" in info:
+                # a compound test: every operand must be of an accepted kind
+                ks = [kind_of(x) for x in info["values"]]
+                return None if any(k is None for k in ks) or not ks else " / ".join(sorted(set(t.cast(t.List[str], ks))))
+            if "lit_read" in info:
+                return "literal mismatch"
+            if "dictmap" in info:
+                return "code outside the table"
+            if "view_nonempty" in info:
+                return "input exhausted"
+            if "cmp" in info:
+                _op, a, b_ = info["cmp"]
+                ats = _atoms_of(a) | _atoms_of(b_)
+                if any(isinstance(x, tuple) and x and x[0] in ("end", "len") and (len(x) < 2 or src in str(x[1]) or x[0] == "end") for x in ats):
+                    return "size test against the input length"
+            return None
+
+        kind = kind_of(c)
+        if kind is None:
+            ok = False
+            chk.ob(rule, Site.of(fr, o.node), False, f"{cls.name}.{fr.name} rejects its input when '{('' if pol else 'not ') + c.desc[:120]}': a test of decoded values that pack() does not enforce, so values the encoder emits are refused by the decoder (decode(encode(x)) fails)")
+        else:
+            chk.ob(rule, Site.of(fr, o.node), True, f"rejection decided by a {kind}")
+    chk.count("decoder rejection paths", n)
+    return ok
 
 
 def pdu_body(repo: Repo, chk: Check, rule: str, qual: str) -> bool:
